@@ -31,7 +31,7 @@ def budget(tier):
 
 @st.composite
 def strategy_(draw, tier):
-    g, recs = draw(conv.graph_and_records(canonical=True, max_records=12))
+    g, recs = draw(conv.graph_and_records(canonical=True, max_records=12, tier=tier, real=True))
     # repeat some walks so that a record is converted after another one that used the same nodes
     if len(recs) >= 2 and draw(st.booleans()):
         src = recs[draw(st.integers(0, len(recs) - 1))]
@@ -90,4 +90,6 @@ def run_case(case):
         classes |= {case["dir"] + ":" + f for f in feats}
         if "multi_node" in feats and feats & {"merged_interval", "strand_flip", "hap_separated_segments", "ref_run>=3", "revisit"}:
             interesting += 1
+    if any(n.startswith("s") and n[1:].isdigit() and int(n[1:]) > 20000 for n in nodes):
+        classes.add("real_graph_window")
     return core.Result(len(inp) >= 2 and interesting >= 1, sorted(classes))
